@@ -575,3 +575,43 @@ Proof.
   - unfold cli_source_lists, drop_empty. simpl. destruct rest; destruct (filter _ base); reflexivity.
   - intros d0 d E. unfold cli_source_lists, drop_empty. simpl. rewrite E. simpl. destruct rest; reflexivity.
 Qed.
+
+(* ------------------------------------------------------------------ header side of the merge *)
+Lemma first_nonempty_app a b :
+  first_nonempty (a ++ b) = if String.eqb (first_nonempty a) "" then first_nonempty b else first_nonempty a.
+Proof.
+  induction a as [|x a IH]; simpl; [reflexivity|].
+  destruct (String.eqb x "") eqn:E; [exact IH|]. rewrite E. reflexivity.
+Qed.
+
+(* merging chunk by chunk (each chunk's default, then the first non-empty of those) names the same
+   default sample type as one merge over everything *)
+Lemma first_nonempty_chunks (chs : list (list string)) :
+  first_nonempty (map first_nonempty chs) = first_nonempty (List.concat chs).
+Proof.
+  induction chs as [|c r IH]; simpl; [reflexivity|].
+  rewrite first_nonempty_app, IH. destruct (String.eqb (first_nonempty c) ""); reflexivity.
+Qed.
+
+Lemma fold_min_le (l : list Z) : forall a, (fold_left Z.min l a <= a)%Z /\ (forall x, In x l -> (fold_left Z.min l a <= x)%Z).
+Proof.
+  induction l as [|y l IH]; intros a; simpl; [split; [lia|tauto]|].
+  destruct (IH (Z.min a y)) as [H1 H2]. split; [lia|]. intros x [<-|I]; [lia|auto].
+Qed.
+
+Lemma fold_min_in (l : list Z) : forall a, fold_left Z.min l a = a \/ In (fold_left Z.min l a) l.
+Proof.
+  induction l as [|y l IH]; intros a; simpl; [now left|].
+  destruct (IH (Z.min a y)) as [H|H]; [|right; now right].
+  rewrite H. destruct (Z.min_spec a y) as [[_ E]|[_ E]]; rewrite E; [now left|right; now left].
+Qed.
+
+(* the common unit is a unit of one of the profiles and no profile has a finer one *)
+Lemma common_unit_finest (us : list Z) : us <> [] ->
+  In (common_unit us) us /\ forall u, In u us -> (common_unit us <= u)%Z.
+Proof.
+  destruct us as [|a r]; [congruence|]. intros _. unfold common_unit.
+  destruct (fold_min_le r a) as [H1 H2]. split.
+  - destruct (fold_min_in r a) as [E|I]; [rewrite E; now left|now right].
+  - intros u [<-|I]; [exact H1|exact (H2 u I)].
+Qed.
